@@ -159,8 +159,8 @@ End Wf.
 Lemma frame1_length r : length (frame1 r) = (length r + 2)%nat.
 Proof. unfold frame1. cbn [length]. rewrite app_length. cbn [length]. lia. Qed.
 
-(* at the end of the file rf.next() does not move: the loop never terminates *)
-Lemma w_walk_eof f ws len start d lays : len <= start + d + 8 -> w_walk (S f) ws len start d d lays = WHang.
+(* at the end of the file rf.next() returns False: the loop raises (db74c5b) *)
+Lemma w_walk_eof f ws len start d lays : len <= start + d + 8 -> w_walk (S f) ws len start d d lays = WErr.
 Proof.
   intros H. cbn [w_walk]. rewrite Z.eqb_refl. unfold rf_next. replace (start + d + 8 <? len) with false by lia. reflexivity.
 Qed.
@@ -217,9 +217,9 @@ Definition w_post (rows cols : Z) (ws : list Z) (len m0 lays2 szd : Z) : wres wv
   let dl := (szd + 8) / 4 in
   let lays := lays2 / 2 in
   let record := rows * cols * 4 + 8 in
-  let body := record * 2 * lays + m0 + 8 in
-  if body <=? 0 then WHang else
-  let times := if len <=? dl then -1 else (len - dl - 1) / body in
+  let step_size := record * 2 * lays + m0 + 8 + dl * 4 in
+  if step_size =? 0 then WErr else
+  let times := len / step_size in
   if negb (len mod 4 =? 0) then WErr else
   if times <=? 0 then WErr else
   let n := len / 4 in
@@ -258,26 +258,6 @@ Proof.
   induction a as [|a IH]; intros l i Hi; [reflexivity|].
   destruct l as [|x l]; [unfold getw; rewrite skipn_nil; destruct (Z.to_nat i), (Z.to_nat (Z.of_nat (S a) + i)); reflexivity|].
   cbn [skipn]. rewrite IH by exact Hi. rewrite (getw_cons x l (Z.of_nat (S a) + i)) by lia. f_equal. lia.
-Qed.
-
-(* ---- cuts inside the first time record: the reader never returns ---------------------------------------- *)
-Lemma w_first_record_cut_hangs c s0 rest len : w_wf c = true -> w_steps c = s0 :: rest ->
-  12 <= len <= w_hdr_bytes c ->
-  w_mm_read (w_ny c) (w_nx c) (firstn (Z.to_nat ((len + 3) / 4)) (w_enc c)) len = WHang.
-Proof.
-  intros W Es Hl. rewrite w_mm_read_unfold.
-  replace (len <? 12) with false by lia.
-  assert (3 <= (len + 3) / 4) by (apply Z.div_le_lower_bound; lia).
-  rewrite getw_firstn by lia.
-  assert (G0 : getw (w_enc c) 0 = w_hdr_bytes c - 8).
-  { rewrite w_enc_steps, Es. cbn [map concat]. unfold w_step_words. rewrite <- !app_assoc.
-    rewrite getw_app_l; [apply hdr_words|]. destruct (hdr_words c s0) as (L & _). rewrite L.
-    unfold w_hdr_bytes. destruct (w_stag c); cbn; lia. }
-  rewrite G0.
-  assert (Hh : w_hdr_bytes c = 20 \/ w_hdr_bytes c = 16) by (unfold w_hdr_bytes; destruct (w_stag c); auto).
-  replace (negb ((w_hdr_bytes c - 8 =? 12) || (w_hdr_bytes c - 8 =? 8))) with false by lia.
-  unfold rf_next at 1. replace (0 + (w_hdr_bytes c - 8) + 8 <? len) with false by lia.
-  cbn [fst snd]. rewrite w_walk_eof by lia. reflexivity.
 Qed.
 
 Lemma firstn_app_cons {A} (a : list A) x b n : (length a < n)%nat ->
@@ -414,9 +394,8 @@ Lemma w_post_eval c s0 rest len : w_wf c = true -> w_steps c = s0 :: rest -> 2 <
   w_body_bytes c + 4 <= len <= 4 * Z.of_nat (length (w_enc c)) ->
   let given := firstn (Z.to_nat ((len + 3) / 4)) (w_enc c) in
   w_post (w_ny c) (w_nx c) given len (w_hdr_bytes c - 8) (2 * w_nz c + 1) 4 =
-  if negb (len mod 4 =? 0) then WErr else
-  let k := (len - 4) / w_body_bytes c in
-  if k * w_body_bytes c + 12 * (k - 1) <=? len then WOk (w_view_of (w_truncate_steps (Z.to_nat k) c)) else WErr.
+  if (len mod 4 =? 0) && (w_step_bytes c <=? len)
+  then WOk (w_view_of (w_truncate_steps (Z.to_nat (len / w_step_bytes c)) c)) else WErr.
 Proof.
   intros W Es Hrc Hl. cbn zeta.
   destruct (sizes_facts c W) as (h & Hh & Hrc0 & Hz & EH & ED & EB & ES).
@@ -426,17 +405,17 @@ Proof.
   assert (A2 : (2 * w_nz c + 1) / 2 = w_nz c).
   { replace (2 * w_nz c + 1) with (1 + w_nz c * 2) by lia. rewrite Z.div_add by lia. reflexivity. }
   rewrite A2.
-  assert (A3 : (w_ny c * w_nx c * 4 + 8) * 2 * w_nz c + (w_hdr_bytes c - 8) + 8 = w_body_bytes c) by (rewrite EB, EH; lia).
+  assert (A3 : (w_ny c * w_nx c * 4 + 8) * 2 * w_nz c + (w_hdr_bytes c - 8) + 8 + 3 * 4 = w_step_bytes c) by (rewrite ES, EH; lia).
   rewrite A3.
-  assert (Hb : 0 < w_body_bytes c) by (rewrite EB; nia).
-  replace (w_body_bytes c <=? 0) with false by lia.
-  replace (len <=? 3) with false by lia.
-  replace (len - 3 - 1) with (len - 4) by lia.
-  destruct (len mod 4 =? 0) eqn:M4; [|reflexivity]. cbn [negb].
-  set (k := (len - 4) / w_body_bytes c).
+  assert (Hb : 0 < w_step_bytes c) by (rewrite ES; nia).
+  replace (w_step_bytes c =? 0) with false by lia.
+  destruct (len mod 4 =? 0) eqn:M4; [|reflexivity]. cbn [negb andb].
+  set (k := len / w_step_bytes c).
+  pose proof (Z.div_mod len (w_step_bytes c) ltac:(lia)) as Edm. fold k in Edm.
+  pose proof (Z.mod_pos_bound len (w_step_bytes c) ltac:(lia)) as Hmb.
+  destruct (w_step_bytes c <=? len) eqn:Hge.
+  2:{ assert (k = 0) by (unfold k; apply Z.div_small; lia). replace (k <=? 0) with true by lia. reflexivity. }
   assert (Hk1 : 1 <= k) by (unfold k; apply Z.div_le_lower_bound; lia).
-  pose proof (Z.div_mod (len - 4) (w_body_bytes c) ltac:(lia)) as Edm. fold k in Edm.
-  pose proof (Z.mod_pos_bound (len - 4) (w_body_bytes c) ltac:(lia)) as Hmb.
   replace (k <=? 0) with false by lia.
   assert (E4 : len = 4 * (len / 4)) by (apply Z.div_exact; lia).
   set (n := len / 4) in *.
@@ -444,47 +423,32 @@ Proof.
   { rewrite EH. replace (4 * h - 8) with (4 * (h - 2)) by lia. rewrite !four_div_o. lia. }
   rewrite Eoff.
   set (block := (w_ny c * w_nx c + 2) * 2 * w_nz c).
-  assert (EBb : w_body_bytes c = 4 * (w_hdr_bytes c / 4 + block)) by (rewrite EH, four_div_o, EB; unfold block; lia).
+  assert (ESb : w_step_bytes c = 4 * (w_hdr_bytes c / 4 + block + 3)) by (rewrite EH, four_div_o, ES; unfold block; lia).
   assert (EN : Z.of_nat (Z.to_nat ((len + 3) / 4)) = n).
   { rewrite Z2Nat.id by (apply Z.div_pos; lia). rewrite E4.
     replace (4 * n + 3) with (3 + n * 4) by lia. rewrite Z.div_add by lia. reflexivity. }
-  destruct (k * w_body_bytes c + 12 * (k - 1) <=? len) eqn:Hc.
-  - (* accepted: k <= number of steps *)
-    rewrite (w_enc_steps c), (concat_length_uniform _ _ (w_steps_uniform c W)), map_length in Hl.
-    rewrite ES, four_div_o in Hl.
-    assert (Hkn : (Z.to_nat k <= length (w_steps c))%nat) by (rewrite EB in *; nia).
-    rewrite (map_seq_steps _ (fun s => Some ((ws_time s, ws_date s), uv_recs (ws_uv s))) (Z.to_nat k) (w_steps c) 0 Hkn).
-    + assert (Ef : forall (l : list wstep) (G : wstep -> (Z * Z) * list (list Z)),
-                forallb (fun p => match p with Some _ => true | None => false end) (map (fun s => Some (G s)) l) = true /\
-                flat_map (fun p => match p with Some x => [x] | None => [] end) (map (fun s => Some (G s)) l) = map G l).
-      { intros l G. induction l as [|x l [I1 I2]]; cbn [map forallb flat_map app]; [split; reflexivity|].
-        rewrite I1, I2. split; reflexivity. }
-      destruct (Ef (firstn (Z.to_nat k) (w_steps c)) (fun s => ((ws_time s, ws_date s), uv_recs (ws_uv s)))) as [F1 F2].
-      rewrite F1, F2. unfold w_view_of, w_truncate_steps. cbn [w_nx w_ny w_nz w_steps].
-      assert (Fk : Forall (wstep_ok c) (firstn (Z.to_nat k) (w_steps c))) by (apply Forall_firstn, Fok).
-      f_equal. f_equal.
-      * rewrite firstn_length. lia.
-      * rewrite map_map. reflexivity.
-      * rewrite map_map. apply map_ext_in. intros s Hs. rewrite Forall_forall in Fk.
-        apply (uv_recs_facts c s (Fk s Hs)).
-      * rewrite map_map. apply map_ext_in. intros s Hs. rewrite Forall_forall in Fk.
-        apply (uv_recs_facts c s (Fk s Hs)).
-    + intros S1 s S2 E HS1. cbn [Nat.add].
-      apply (w_step_view_ok c S1 s S2 _ n W E); [|lia].
-      fold block. rewrite EBb in Hc, Edm. nia.
-  - (* the slice of the last counted step does not fit *)
-    assert (In (w_step_view (firstn (Z.to_nat ((len + 3) / 4)) (w_enc c)) n (w_hdr_bytes c / 4) block 3
-                  (w_ny c * w_nx c) (k - 1))
-               (map (w_step_view (firstn (Z.to_nat ((len + 3) / 4)) (w_enc c)) n (w_hdr_bytes c / 4) block 3 (w_ny c * w_nx c))
-                    (map Z.of_nat (seq 0 (Z.to_nat k))))) as Hin.
-    { apply in_map. apply in_map_iff. exists (Z.to_nat (k - 1)). split; [lia|]. apply in_seq. lia. }
-    assert (En : w_step_view (firstn (Z.to_nat ((len + 3) / 4)) (w_enc c)) n (w_hdr_bytes c / 4) block 3
-                   (w_ny c * w_nx c) (k - 1) = None).
-    { unfold w_step_view.
-      replace ((k - 1 + 1) * (w_hdr_bytes c / 4) + (k - 1) * block + (k - 1) * 3 + block <=? n) with false; [reflexivity|].
-      rewrite EBb in Hc. nia. }
-    rewrite En in Hin.
-    destruct (forallb _ _) eqn:Ff; [|reflexivity]. rewrite forallb_forall in Ff. specialize (Ff None Hin). discriminate.
+  rewrite (w_enc_steps c), (concat_length_uniform _ _ (w_steps_uniform c W)), map_length in Hl.
+  rewrite ES, four_div_o in Hl.
+  assert (Hkn : (Z.to_nat k <= length (w_steps c))%nat) by (rewrite ES in *; nia).
+  rewrite (map_seq_steps _ (fun s => Some ((ws_time s, ws_date s), uv_recs (ws_uv s))) (Z.to_nat k) (w_steps c) 0 Hkn).
+  - assert (Ef : forall (l : list wstep) (G : wstep -> (Z * Z) * list (list Z)),
+              forallb (fun p => match p with Some _ => true | None => false end) (map (fun s => Some (G s)) l) = true /\
+              flat_map (fun p => match p with Some x => [x] | None => [] end) (map (fun s => Some (G s)) l) = map G l).
+    { intros l G. induction l as [|x l [I1 I2]]; cbn [map forallb flat_map app]; [split; reflexivity|].
+      rewrite I1, I2. split; reflexivity. }
+    destruct (Ef (firstn (Z.to_nat k) (w_steps c)) (fun s => ((ws_time s, ws_date s), uv_recs (ws_uv s)))) as [F1 F2].
+    rewrite F1, F2. unfold w_view_of, w_truncate_steps. cbn [w_nx w_ny w_nz w_steps].
+    assert (Fk : Forall (wstep_ok c) (firstn (Z.to_nat k) (w_steps c))) by (apply Forall_firstn, Fok).
+    f_equal. f_equal.
+    + rewrite firstn_length. lia.
+    + rewrite map_map. reflexivity.
+    + rewrite map_map. apply map_ext_in. intros s Hs. rewrite Forall_forall in Fk.
+      apply (uv_recs_facts c s (Fk s Hs)).
+    + rewrite map_map. apply map_ext_in. intros s Hs. rewrite Forall_forall in Fk.
+      apply (uv_recs_facts c s (Fk s Hs)).
+  - intros S1 s S2 E HS1. cbn [Nat.add].
+    apply (w_step_view_ok c S1 s S2 _ n W E); [|lia].
+    fold block. rewrite ESb in Edm, Hmb. nia.
 Qed.
 
 Lemma w_enc_length c : w_wf c = true -> 4 * Z.of_nat (length (w_enc c)) = Z.of_nat (length (w_steps c)) * w_step_bytes c.
@@ -495,39 +459,158 @@ Proof.
   rewrite Nat2Z.inj_mul, Z2Nat.id by lia. lia.
 Qed.
 
-(* EVERY cut from the first step's dummy marker on (reader called with the prefix) *)
-Lemma w_mm_read_len c s0 rest len : w_wf c = true -> w_steps c = s0 :: rest -> 2 <= w_nx c * w_ny c ->
-  w_body_bytes c + 4 <= len <= 4 * Z.of_nat (length (w_enc c)) ->
-  w_mm_read (w_ny c) (w_nx c) (firstn (Z.to_nat ((len + 3) / 4)) (w_enc c)) len =
-  if negb (len mod 4 =? 0) then WErr else
-  let k := (len - 4) / w_body_bytes c in
-  if k * w_body_bytes c + 12 * (k - 1) <=? len then WOk (w_view_of (w_truncate_steps (Z.to_nat k) c)) else WErr.
+(* ---- cuts inside the first step: the layer-counting loop raises ------------------------------------------------ *)
+Lemma w_walk_frames_cut d m tail len : forall (rs : list (list Z)) pre cur lays fuel,
+  Forall (fun r => marker r = d) (cur :: rs) ->
+  len < 4 * Z.of_nat (length pre + length (frame1 cur) + length (concat (map frame1 rs))) + 4 ->
+  (Z.to_nat (len - 4 * Z.of_nat (length pre)) < fuel)%nat ->
+  w_walk fuel (pre ++ frame1 cur ++ concat (map frame1 rs) ++ m :: tail) len (4 * Z.of_nat (length pre)) d d lays = WErr.
 Proof.
-  intros W Es Hrc Hl. rewrite (w_head c s0 rest len W Es Hrc) by lia. apply (w_post_eval c s0 rest len W Es Hrc Hl).
+  induction rs as [|r1 rs IH]; intros pre cur lays fuel Hd Hlen Hf; (destruct fuel as [|f]; [lia|]);
+    pose proof (Forall_inv Hd) as Hc; cbn beta in Hc; cbn [w_walk]; rewrite Z.eqb_refl;
+    assert (Eoff : 4 * Z.of_nat (length pre) + d + 8 = 4 * Z.of_nat (length (pre ++ frame1 cur)))
+      by (rewrite app_length, frame1_length; unfold marker in Hc; lia);
+    unfold rf_next; rewrite Eoff; rewrite app_length.
+  - cbn [map concat length] in Hlen.
+    destruct (4 * Z.of_nat (length pre + length (frame1 cur)) <? len) eqn:H1; [|reflexivity].
+    replace (4 * Z.of_nat (length pre + length (frame1 cur)) + 4 <=? len) with false by lia. reflexivity.
+  - pose proof (Forall_inv_tail Hd) as Hd'.
+    destruct (4 * Z.of_nat (length pre + length (frame1 cur)) <? len) eqn:H1; [|reflexivity].
+    destruct (4 * Z.of_nat (length pre + length (frame1 cur)) + 4 <=? len) eqn:H2; [|reflexivity].
+    rewrite four_div_o.
+    assert (Ews : pre ++ frame1 cur ++ concat (map frame1 (r1 :: rs)) ++ m :: tail
+                  = (pre ++ frame1 cur) ++ frame1 r1 ++ concat (map frame1 rs) ++ m :: tail)
+      by (cbn [map concat]; rewrite <- !app_assoc; reflexivity).
+    rewrite Ews.
+    assert (G : getw ((pre ++ frame1 cur) ++ frame1 r1 ++ concat (map frame1 rs) ++ m :: tail)
+                     (Z.of_nat (length pre + length (frame1 cur))) = d).
+    { rewrite getw_app_r by (rewrite app_length; lia). rewrite app_length, Z.sub_diag.
+      unfold frame1 at 1. cbn [app]. rewrite getw_0. apply (Forall_inv Hd'). }
+    rewrite G. rewrite <- app_length.
+    apply (IH (pre ++ frame1 cur) r1 (lays + 1) f Hd').
+    + cbn [map concat] in Hlen. rewrite !app_length in *. lia.
+    + rewrite app_length, frame1_length. lia.
 Qed.
 
-(* whole files: read as their content whenever the step count is small against the step size (12 * steps < body + 4);
-   beyond that the reader's step count, which never counts the dummy records, runs ahead of the file *)
+Lemma getw_firstn_any ws N i : (1 <= N)%nat -> i < Z.of_nat N -> getw (firstn N ws) i = getw ws i.
+Proof.
+  intros HN Hi. destruct (i <? 0) eqn:Hneg.
+  - unfold getw. replace (Z.to_nat i) with 0%nat by lia. destruct N as [|N]; [lia|]. destruct ws; reflexivity.
+  - apply getw_firstn; lia.
+Qed.
+
+Lemma rf_next_local ws len start sz : 4 <= len ->
+  rf_next (firstn (Z.to_nat ((len + 3) / 4)) ws) len start sz = rf_next ws len start sz.
+Proof.
+  intros Hl. unfold rf_next. destruct (start + sz + 8 <? len); [|reflexivity].
+  destruct (start + sz + 8 + 4 <=? len) eqn:H2; [|reflexivity].
+  assert (1 <= (len + 3) / 4) by (apply Z.div_le_lower_bound; lia).
+  rewrite getw_firstn_any; [reflexivity|lia|].
+  rewrite Z2Nat.id by lia.
+  assert ((start + sz + 8) / 4 <= (len - 4) / 4) by (apply Z.div_le_mono; lia).
+  assert ((len - 4) / 4 < (len + 3) / 4).
+  { replace (len + 3) with (len - 4 + 3 + 1 * 4) by lia. rewrite Z.div_add by lia.
+    assert ((len - 4) / 4 <= (len - 4 + 3) / 4) by (apply Z.div_le_mono; lia). lia. }
+  lia.
+Qed.
+
+Lemma w_walk_local ws len d : 4 <= len -> forall fuel start sz lays,
+  w_walk fuel (firstn (Z.to_nat ((len + 3) / 4)) ws) len start sz d lays = w_walk fuel ws len start sz d lays.
+Proof.
+  intros Hl. induction fuel as [|f IH]; intros start sz lays; [reflexivity|].
+  cbn [w_walk]. destruct (sz =? d); [|reflexivity]. rewrite rf_next_local by exact Hl.
+  destruct (rf_next ws len start sz) as [[[s' sz']|]|]; try reflexivity. apply IH.
+Qed.
+
+Lemma w_cut_in_first_step c s0 rest len : w_wf c = true -> w_steps c = s0 :: rest -> 2 <= w_nx c * w_ny c ->
+  0 <= len < w_body_bytes c + 4 ->
+  w_mm_read (w_ny c) (w_nx c) (firstn (Z.to_nat ((len + 3) / 4)) (w_enc c)) len = WErr.
+Proof.
+  intros W Es Hrc Hl. rewrite w_mm_read_unfold.
+  destruct (len <? 12) eqn:H12; [reflexivity|].
+  destruct (sizes_facts c W) as (h & Hh & Hrc0 & Hz & EH & ED & EB & ES).
+  assert (Ok0' : wstep_ok c s0).
+  { pose proof (proj2 (proj2 (proj2 (w_wf_parts c W)))) as F. rewrite Es in F. apply (Forall_inv F). }
+  destruct (hdr_words c s0) as (LT & GT0 & _). rewrite EH, four_div_o in LT.
+  destruct (data_rows c W s0 Ok0') as (_ & LD & _ & _).
+  destruct (uv_recs_facts c s0 Ok0') as (LR & FR & _ & _).
+  destruct (uv_recs (ws_uv s0)) as [|r1 rs] eqn:Er; [cbn [length] in LR; lia|].
+  assert (EDATA : w_DATA s0 = frame1 r1 ++ concat (map frame1 rs)) by (unfold w_DATA; rewrite Er; reflexivity).
+  assert (Eenc : w_enc c = w_T c s0 ++ frame1 r1 ++ concat (map frame1 rs) ++ 4 :: ([w_dummy c; 4] ++ concat (map (w_step_words c) rest))).
+  { rewrite w_enc_steps, Es. cbn [map concat]. unfold w_step_words at 1. rewrite EDATA, <- !app_assoc. reflexivity. }
+  assert (3 <= (len + 3) / 4) by (apply Z.div_le_lower_bound; lia).
+  rewrite getw_firstn by lia.
+  assert (G0 : getw (w_enc c) 0 = w_hdr_bytes c - 8) by (rewrite Eenc, getw_app_l by lia; exact GT0).
+  rewrite G0.
+  replace (negb ((w_hdr_bytes c - 8 =? 12) || (w_hdr_bytes c - 8 =? 8))) with false by lia.
+  rewrite rf_next_local by lia.
+  unfold rf_next at 1.
+  replace (0 + (w_hdr_bytes c - 8) + 8) with (4 * Z.of_nat (length (w_T c s0))) by lia.
+  destruct (4 * Z.of_nat (length (w_T c s0)) <? len) eqn:H1.
+  2:{ cbn [fst snd]. rewrite w_walk_local by lia. rewrite w_walk_eof by lia. reflexivity. }
+  destruct (4 * Z.of_nat (length (w_T c s0)) + 4 <=? len) eqn:H2; [|reflexivity].
+  rewrite w_walk_local by lia.
+  assert (Mk : Forall (fun r => marker r = 4 * (w_nx c * w_ny c)) (r1 :: rs)).
+  { eapply Forall_impl; [|exact FR]. intros r Hr. unfold marker. cbn beta in Hr. lia. }
+  assert (G1 : getw (w_enc c) (4 * Z.of_nat (length (w_T c s0)) / 4) = 4 * (w_nx c * w_ny c)).
+  { rewrite four_div_o, Eenc. rewrite getw_app_r by lia. rewrite Z.sub_diag. unfold frame1 at 1. cbn [app]. rewrite getw_0.
+    apply (Forall_inv Mk). }
+  rewrite G1. cbn [fst snd]. rewrite Eenc.
+  rewrite (w_walk_frames_cut (4 * (w_nx c * w_ny c)) 4 _ len rs (w_T c s0) r1 1 _ Mk); [reflexivity| |].
+  - assert (LDr : Z.of_nat (length (frame1 r1) + length (concat (map frame1 rs))) = (w_nx c * w_ny c + 2) * 2 * w_nz c).
+    { rewrite <- app_length, <- EDATA. exact LD. }
+    rewrite EB in Hl. lia.
+  - lia.
+Qed.
+
+(* EVERY cut of EVERY well-formed file on a grid of two or more cells (reader called with the prefix) *)
+Lemma w_mm_read_every_cut c len : w_wf c = true -> w_steps c <> [] -> 2 <= w_nx c * w_ny c ->
+  0 <= len <= 4 * Z.of_nat (length (w_enc c)) ->
+  w_mm_read (w_ny c) (w_nx c) (firstn (Z.to_nat ((len + 3) / 4)) (w_enc c)) len =
+  if (len mod 4 =? 0) && (w_step_bytes c <=? len)
+  then WOk (w_view_of (w_truncate_steps (Z.to_nat (len / w_step_bytes c)) c)) else WErr.
+Proof.
+  intros W Hne Hrc Hl. destruct (w_steps c) as [|s0 rest] eqn:Es; [congruence|].
+  destruct (sizes_facts c W) as (h & Hh & Hrc0 & Hz & EH & ED & EB & ES).
+  destruct (len <? w_body_bytes c + 4) eqn:Hc.
+  - rewrite (w_cut_in_first_step c s0 rest len W Es Hrc) by lia.
+    replace (w_step_bytes c <=? len) with false by (rewrite ES, EB in *; lia). rewrite andb_false_r. reflexivity.
+  - rewrite (w_head c s0 rest len W Es Hrc) by lia. apply (w_post_eval c s0 rest len W Es Hrc). lia.
+Qed.
+
+(* whole files, any number of steps *)
 Lemma w_mm_read_enc c : w_wf c = true -> w_steps c <> [] -> 2 <= w_nx c * w_ny c ->
-  12 * Z.of_nat (length (w_steps c)) < w_body_bytes c + 4 ->
   w_mm_read (w_ny c) (w_nx c) (w_enc c) (4 * Z.of_nat (length (w_enc c))) = WOk (w_view_of c).
 Proof.
-  intros W Hne Hrc Hsm. destruct (w_steps c) as [|s0 rest] eqn:Es; [congruence|].
+  intros W Hne Hrc.
   destruct (sizes_facts c W) as (h & Hh & Hrc0 & Hz & EH & ED & EB & ES).
-  pose proof (w_enc_length c W) as EL. rewrite Es in EL. cbn [length] in *.
-  set (nn := Z.of_nat (S (length rest))) in *. assert (1 <= nn) by lia.
-  pose proof (w_mm_read_len c s0 rest (4 * Z.of_nat (length (w_enc c))) W Es Hrc ltac:(rewrite EL, ES, EB; nia)) as R.
+  pose proof (w_enc_length c W) as EL.
+  assert (Hn : 1 <= Z.of_nat (length (w_steps c))) by (destruct (w_steps c); [congruence|cbn [length]; lia]).
+  assert (Hb : 0 < w_step_bytes c) by (rewrite ES; nia).
+  pose proof (w_mm_read_every_cut c (4 * Z.of_nat (length (w_enc c))) W Hne Hrc ltac:(lia)) as R.
   replace (Z.to_nat ((4 * Z.of_nat (length (w_enc c)) + 3) / 4)) with (length (w_enc c)) in R.
   2:{ replace (4 * Z.of_nat (length (w_enc c)) + 3) with (3 + Z.of_nat (length (w_enc c)) * 4) by lia.
       rewrite Z.div_add by lia. change (3 / 4) with 0. lia. }
   rewrite firstn_all in R. rewrite R. clear R.
   replace ((4 * Z.of_nat (length (w_enc c))) mod 4) with 0 by (rewrite Z.mul_comm, Z.mod_mul; lia).
-  cbn [Z.eqb negb]. cbn zeta. rewrite EL.
-  assert (Ek : (nn * w_step_bytes c - 4) / w_body_bytes c = nn).
-  { symmetry. apply (Z.div_unique _ _ nn (12 * nn - 4)); rewrite ES, EB in *; nia. }
-  rewrite Ek. replace (nn * w_body_bytes c + 12 * (nn - 1) <=? nn * w_step_bytes c) with true by (rewrite ES, EB; nia).
-  unfold w_truncate_steps. replace (Z.to_nat nn) with (length (w_steps c)) by (rewrite Es; cbn [length]; lia).
-  rewrite firstn_all. destruct c; reflexivity.
+  rewrite EL. replace (w_step_bytes c <=? Z.of_nat (length (w_steps c)) * w_step_bytes c) with true by nia.
+  cbn [Z.eqb andb]. rewrite Z.div_mul by lia. rewrite Nat2Z.id.
+  unfold w_truncate_steps. rewrite firstn_all. destruct c; reflexivity.
+Qed.
+
+(* the repaired loop cannot diverge unless a corrupt size word moves the walk backwards *)
+Lemma w_walk_no_hang ws len d : 0 < d + 8 -> forall fuel start lays, (Z.to_nat (len - start) < fuel)%nat ->
+  w_walk fuel ws len start d d lays <> WHang.
+Proof.
+  intros Hd. induction fuel as [|f IH]; intros start lays Hf; [lia|].
+  cbn [w_walk]. rewrite Z.eqb_refl. unfold rf_next.
+  destruct (start + d + 8 <? len) eqn:H1; [|discriminate].
+  destruct (start + d + 8 + 4 <=? len); [|discriminate].
+  destruct (getw ws ((start + d + 8) / 4) =? d) eqn:E.
+  - apply Z.eqb_eq in E. rewrite E. apply IH. lia.
+  - destruct f; cbn [w_walk]; [|rewrite E; discriminate].
+    (* no fuel left but the walk would stop here anyway *)
+    exfalso. lia.
 Qed.
 
 (* ======================================================================================
@@ -620,4 +703,26 @@ Proof.
     replace (Z.to_nat (w_nx c * w_ny c + 2 + 1)) with (1 + length (frame1 u))%nat by (rewrite frame1_length; lia).
     rewrite <- app_assoc. rewrite skipn_add_app_o. unfold frame1 at 1. cbn [app skipn].
     rewrite <- !app_assoc. apply firstn_app_len. lia.
+Qed.
+
+(* the repaired reader model never diverges on a file whose second record has a size word above -8: in particular on no
+   prefix of a well-formed file (WHang is left only for corrupt size words that move the record walk backwards) *)
+Lemma w_mm_read_hang_corrupt rows cols ws len : w_mm_read rows cols ws len = WHang ->
+  snd (match rf_next ws len 0 (getw ws 0) with Some (Some x) => x | _ => (0, getw ws 0) end) + 8 <= 0.
+Proof.
+  rewrite w_mm_read_unfold. destruct (len <? 12) eqn:H12; [discriminate|].
+  destruct (negb ((getw ws 0 =? 12) || (getw ws 0 =? 8))) eqn:Hm; [discriminate|].
+  destruct (rf_next ws len 0 (getw ws 0)) as [st1|] eqn:Er; [|discriminate].
+  set (st := match st1 with Some x => x | None => (0, getw ws 0) end).
+  assert (Est : (match st1 with Some x => x | None => (0, getw ws 0) end) = st) by reflexivity.
+  assert (Hs : 0 <= fst st).
+  { unfold st. destruct st1 as [[s1 d]|]; cbn [fst]; [|lia]. unfold rf_next in Er.
+    destruct (0 + getw ws 0 + 8 <? len); [|discriminate]. destruct (0 + getw ws 0 + 8 + 4 <=? len); [|discriminate].
+    injection Er as <- _. lia. }
+  replace (match st1 with Some x => x | None => (0, getw ws 0) end) with st by reflexivity.
+  destruct (0 <? snd st + 8) eqn:Hd; [|lia].
+  pose proof (w_walk_no_hang ws len (snd st) ltac:(lia) (S (Z.to_nat len)) (fst st) 1 ltac:(lia)) as NH.
+  destruct (w_walk (S (Z.to_nat len)) ws len (fst st) (snd st) (snd st) 1) as [[l2 sd]| |]; try discriminate.
+  - unfold w_post. repeat (match goal with |- context [if ?b then _ else _] => destruct b end; try discriminate).
+  - congruence.
 Qed.
